@@ -759,7 +759,10 @@ func runFault(r *lib.Run, caseIdx int, sc script, inject []string) {
 		seen := map[string]bool{}
 		var out []*fstate
 		for _, s := range in {
-			k := viewDigest(s.live.view()) + fmt.Sprint(len(s.live.pending), s.live.w, s.has, len(s.ghost))
+			// a state with an unacknowledged batch never accepts another write, so its
+			// future depends only on its live side and on what its disk content is
+			d := disk(s)
+			k := viewDigest(s.live.view()) + fmt.Sprint(len(s.live.pending), s.live.w, s.has) + viewDigest(d.view()) + fmt.Sprint(d.w)
 			if !seen[k] {
 				seen[k] = true
 				out = append(out, s)
@@ -884,6 +887,15 @@ func runFault(r *lib.Run, caseIdx int, sc script, inject []string) {
 					report("", call, p.Msg, pr)
 					return
 				}
+				// the copy shows what is on disk right now: keep the states that agree
+				observed := disk(states[which]).view()
+				var keep []*fstate
+				for _, s := range states {
+					if equalViews(disk(s).view(), observed) {
+						keep = append(keep, s)
+					}
+				}
+				states = keep
 			}
 		}
 	}
